@@ -18,20 +18,33 @@ Fixpoint adj (l : list gstmt) : list nat :=
   | [] => []
   | s :: r => (if binds_err s then (match r with n :: _ => if is_err_check n then [] else [1] | [] => [1] end) else []) ++ adj r
   end.
-Fixpoint unchecked_s (s : gstmt) : list nat :=
+(* the same inside the cases of a switch that is itself directly followed by the check: the binding may be the
+   last statement of a case (x, err = f(..) in every case, one `if err != nil` after the switch) *)
+Fixpoint adjf (followed : bool) (l : list gstmt) : list nat :=
+  match l with
+  | [] => []
+  | s :: r => (if binds_err s then (match r with n :: _ => if is_err_check n then [] else [1] | [] => if followed then [] else [1] end) else []) ++ adjf followed r
+  end.
+Definition next_checks (r : list gstmt) : bool := match r with n :: _ => is_err_check n | [] => false end.
+Fixpoint unchecked_s (followed : bool) (s : gstmt) {struct s} : list nat :=
+  let blk := fix blk (l : list gstmt) : list nat :=
+    match l with [] => [] | x :: r => unchecked_s (next_checks r) x ++ blk r end in
   match s with
-  | SIf _ _ t e => adj t ++ adj e ++ flat_map unchecked_s t ++ flat_map unchecked_s e
-  | SFor _ _ _ b | SForMap _ _ _ b | SFor3 _ _ _ b | SChunk b => adj b ++ flat_map unchecked_s b
-  | STypeSwitch _ _ cs d => flat_map (fun c => adj (snd c) ++ flat_map unchecked_s (snd c)) cs ++ adj d ++ flat_map unchecked_s d
-  | SSwitch _ cs d => flat_map (fun c => adj (snd c) ++ flat_map unchecked_s (snd c)) cs ++ adj d ++ flat_map unchecked_s d
+  | SIf _ _ t e => adj t ++ adj e ++ blk t ++ blk e
+  | SFor _ _ _ b | SForMap _ _ _ b | SFor3 _ _ _ b | SChunk b => adj b ++ blk b
+  | STypeSwitch _ _ cs d => flat_map (fun c => adjf followed (snd c) ++ blk (snd c)) cs ++ adjf followed d ++ blk d
+  | SSwitch _ cs d => flat_map (fun c => adjf followed (snd c) ++ blk (snd c)) cs ++ adjf followed d ++ blk d
   | _ => []
   end.
-Definition unchecked (l : list gstmt) : nat := List.length (adj l ++ flat_map unchecked_s l).
-(* the translated bodies of package asm: type constructors, body translators of instructions, terminators,
-   constant expressions and debug-info nodes, enum converters *)
-Definition asm_bodies : list printer := filter (fun p => String.eqb (p_pkg p) "asm") printers.
+Fixpoint unchecked_b (l : list gstmt) : list nat :=
+  match l with [] => [] | x :: r => unchecked_s (next_checks r) x ++ unchecked_b r end.
+Definition unchecked (l : list gstmt) : nat := List.length (adj l ++ unchecked_b l).
+(* the translated bodies of package asm: all of its functions and methods (type constructors, body translators
+   of instructions, terminators, constant expressions and debug-info nodes, enum converters, and since the fifth
+   round the rest: module, type, global, constant, metadata and value translation, helpers) *)
+Definition asm_bodies : list printer := filter (fun p => String.eqb (p_pkg p) "asm") printers ++ asm_rest.
 
-(* every error a callee reports is looked at before anything else happens: in all 196 bodies, each statement
+(* every error a callee reports is looked at before anything else happens: in all bodies of the package (350), each statement
    that binds err (x, err := f(..) or err = f(..)) is directly followed by `if err != nil { .. }` with a
    non-empty branch (which returns: see errors_are_returned) *)
 Theorem errors_are_checked : forallb (fun p => Nat.eqb (unchecked (p_body p)) 0) asm_bodies = true.
@@ -51,7 +64,7 @@ Fixpoint swallowed_s (s : gstmt) : list nat :=
   end.
 Theorem errors_are_returned : forallb (fun p => Nat.eqb (List.length (flat_map swallowed_s (p_body p))) 0) asm_bodies = true.
 Proof. vm_compute. reflexivity. Qed.
-Example asm_bodies_counted : List.length asm_bodies = 196 /\
-  60 <= List.length (filter (fun p => existsb binds_err (p_body p)) asm_bodies).
+Example asm_bodies_counted : List.length asm_bodies = 350 /\
+  150 <= List.length (filter (fun p => existsb binds_err (p_body p)) asm_bodies).
 Proof. vm_compute. split; [reflexivity|repeat constructor]. Qed.
 Print Assumptions errors_are_checked.
